@@ -69,8 +69,9 @@ int main(int argc, char **argv)
 {
 	Campaign c;
 	c.prop = "C11";
-	c.rules = {"model/", "C01/", "C06/daemon-exited-early", "output/", "serve/"};
+	c.rules = {"C02/", "model/", "C01/", "C06/daemon-exited-early", "output/", "serve/"};
 	c.opt.baseline_check = false;
+	c.opt.gap_check = true;
 	c.opt.hygiene_check = false;
 	c.nontrivial = [](const Verdict &vd, const Scenario &) {
 		auto g = [&](const char *k) { auto it = vd.stat.find(k); return it == vd.stat.end() ? 0L : it->second; };
